@@ -436,7 +436,8 @@ func replay(c *mcx.Ctx, raw json.RawMessage) (string, string) {
 func init() {
 	mcx.Register(&mcx.Driver{
 		ID: "C09", Run: run, Replay: replay,
-		Rule: "full product: final-product directory {as recorded by the last step, one file added, removed, modified, line ending changed only, empty, one added behind a link to a directory, one added that is named like an inspection's link file} x 0..2 inspections (quick: pairs over 8 of the commands) (thorough: + 3 over a 4-command / 3-rule-list menu) x per inspection one of 8 rule lists (permissive, MATCH against the last step with and without ALLOW *.link, REQUIRE, CREATE, MODIFY, malformed, none) and a command from a 12-element catalogue (no-op, create / modify / delete a file, exit 1 / 2 / 127 / 255, killed by a signal, missing executable, empty command, 1 MiB of output) x a rule list from {none, permissive, MATCH * WITH PRODUCTS FROM last step + DISALLOW *, REQUIRE, CREATE + DISALLOW, malformed} x {working directory, explicit run directory (rules in their prefix-qualified form)}; " +
+		Rule: "also: a run directory named relative to the working directory (every single inspection); rule list REQUIRE f, REQUIRE g, MATCH, DISALLOW *; " +
+			"full product: final-product directory {as recorded by the last step, one file added, removed, modified, line ending changed only, empty, one added behind a link to a directory, one added that is named like an inspection's link file} x 0..2 inspections (quick: pairs over 8 of the commands) (thorough: + 3 over a 4-command / 3-rule-list menu) x per inspection one of 8 rule lists (permissive, MATCH against the last step with and without ALLOW *.link, REQUIRE, CREATE, MODIFY, malformed, none) and a command from a 12-element catalogue (no-op, create / modify / delete a file, exit 1 / 2 / 127 / 255, killed by a signal, missing executable, empty command, 1 MiB of output) x a rule list from {none, permissive, MATCH * WITH PRODUCTS FROM last step + DISALLOW *, REQUIRE, CREATE + DISALLOW, malformed} x {working directory, explicit run directory (rules in their prefix-qualified form)}; " +
 			"plus the DSSE wrapper and failing step checks (rule violated, link tampered) over a 3-command / 2-rule-list menu. Real processes; every command appends its index to a log. The reference predicts each command's effect on the directory (incl. the <name>.link files the verifier drops into the working directory), hashes contents itself and evaluates the rules with ref.Rules. non-trivial = at least one inspection and the reference decides. states = cases, transitions = inspections.",
 		Assumptions: []string{"catalogue commands have the stated file-system effects under /bin/sh", "an empty explicit run directory is refused by the entry point (don't-care)", "observations are compared after replacing scratch paths"},
 		BudgetQuick: 150e9,
